@@ -548,6 +548,12 @@ def single_loop_part(tier, seed, res):
             n += 1
             res.evaluations += 1
             msg = raw_lost_post_oracle(r.log)
+            last = (r.log.strip().splitlines() or [""])[-1]
+            if not msg and r.san and "TIMEOUT" in r.san and last.split()[:1] in (["RAWPOST"], ["XRAWPOST"]):
+                msg = f"iv_event_raw_post never returned (the run was cut by the watchdog inside it; log ends with '{last}'): posting never blocks the poster"
+                pth = common.write_case(PROP, r.name, ["# single-loop case (replayed by vlib/l1.py)"] + r.lines, tier, seed, ext="scn")
+                res.impl_violations.append(("raw:loop:poster-stuck", "implementation violates C09: " + msg, pth))
+                break
             if msg:
                 small = l1.shrink_scenario(r.lines, lambda ls: raw_lost_post_oracle(l1.run_case("s", ls).log) is not None, budget=60)
                 pth = common.write_case(PROP, r.name, ["# single-loop case (replayed by vlib/l1.py)"] + small, tier, seed, ext="scn")
